@@ -13,9 +13,15 @@ try:
         metas[m.get("patch")] = m
 except Exception as e:
     print("no meta.json:", e)
+verify = {}
+if os.path.exists(os.path.join(out, "verify.json")):
+    verify = json.load(open(os.path.join(out, "verify.json")))
 for n in (1, 2, 3):
     pf = os.path.join(out, "patch%d.diff" % n)
     if not os.path.exists(pf):
+        continue
+    if verify and verify.get("patch%d.diff" % n, {}).get("verdict") != "CONFIRMED":
+        print("%s-%d SKIPPED (not confirmed by tools/seedverify.py: %s)" % (pid, n + offset, verify.get("patch%d.diff" % n, {}).get("verdict")))
         continue
     dst = os.path.join(ROOT, "seeded", "%s-%d" % (pid, n + offset))
     os.makedirs(dst, exist_ok=True)
@@ -23,7 +29,15 @@ for n in (1, 2, 3):
     dm = os.path.join(out, "demo%d.md" % n)
     if os.path.exists(dm):
         shutil.copy(dm, os.path.join(dst, "demonstration.md"))
+    for ext in ("_test.go", ".go"):
+        dg = os.path.join(out, "demo%d%s" % (n, ext))
+        if os.path.exists(dg):
+            shutil.copy(dg, os.path.join(dst, "demonstration" + ext + ".txt"))
     meta = dict(metas.get("patch%d.diff" % n, {}))
+    if verify:
+        v = verify.get("patch%d.diff" % n, {})
+        meta["confirmed"] = ("tools/seedverify.py in a scratch worktree: demonstration passes on the clean tree (rc %s), patch applies and builds, "
+                             "demonstration fails with the patch (rc %s), pinned suite passes with the patch (flaky test ignored)" % (v.get("clean_rc"), v.get("patched_rc")))
     meta.update(property=pid, origin="sub-agent given only the property record and a scratch worktree")
     ids = [pid] + extra
     p = subprocess.run([sys.executable, os.path.join(ROOT, "tools", "seedtest.py"), "--keep-replay", dst, pf, ",".join(ids)], capture_output=True, text=True)
